@@ -190,6 +190,19 @@ class LessLexer:
         t.lexer.pop_state()
         return t
 
+    def t_iselector_t_semicolon(self, t):
+        r';'
+        # End of a mixin call statement: .mixin(); or .mixin;
+        t.lexer.pop_state()
+        t.lexer.in_property_decl = False
+        return t
+
+    def t_iselector_t_bclose(self, t):
+        r'\}'
+        # End of a block after a mixin call without semicolon: .a{.mixin}
+        t.lexer.pop_state()
+        return t
+
     def t_mediaquery_t_not(self, t):
         r'not'
         return t
